@@ -47,7 +47,7 @@ Print Assumptions C05_T7_host_independent.
 (* R1 (recorded finding D15): with ts_first_point the first cloud of a session is stamped 0 *)
 Example C05_R1_first_cloud_zero :
   let d := desc_RS32 in
-  let c := mk_dcfg false false 3 0 12 dy_zero dy_zero 0 36000 true true false 0 0 0 in
+  let c := mk_dcfg false false 3 0 12 dy_zero dy_zero 0 36000 true true false 0 0 0 false in
   let mk az := [85;170;5;10;90;165;80;160] ++ repeat 0 12 ++ [23;11;14;22;13;20;0;0;0;0] ++ repeat 0 12 ++
                flat_map (fun k => [255;238; (az + 20 * k) / 256; (az + 20 * k) mod 256] ++ repeat 7 96) (map Z.of_nat (seq 0 12)) ++ repeat 0 6 in
   let '(v0, th, _) := init_drv d c [] 1000 [] 10 in
